@@ -212,6 +212,64 @@ def check_ntt(prop, tier, seed, work, t0):
         required=NTT_REQUIRED[prop], replay_info={"harness": "ntt.cpp", "how": "./check %s --replay <file>" % prop})
 
 
+# ------------------------------------------------------------------------------------------ C06 / C07 / C08
+POS_LIBS = ["goldilocks_base_field.cpp", "goldilocks_cubic_extension.cpp", "poseidon_goldilocks.cpp"]
+POS_RULE = {
+    "C06": "states from eight families: uniform, all-boundary (non-canonical included), single hot boundary element in each of the 12 positions, mixed G64, and "
+           "inverse-constructed states for full rounds 0,1,2 of the first half (the vector that must reach the linear layer is chosen from boundary families - "
+           "products with the 8-bit matrix just below 2^64 or exactly in [p,2^64), 0x5555.., values near 0 and p - and the input is solved for with 7th roots and "
+           "the inverse MDS matrix in the oracle, then presented in canonical or +p alias form); each state is run through hash_full_result_seq / hash_full_result "
+           "(also in place) / hash_seq / hash and, in the AVX-512 build, hash_full_result_avx512 / hash_avx512 as first and as second state of an interleaved pair "
+           "with an independent partner, and compared with a reference permutation written from the spec over the oracle field. The oracle must reproduce the two "
+           "published known answers; the flattened matrices are checked against the row forms and the constant tables against a pinned hash. All states are "
+           "non-trivial (31 rounds); distinct by hash of the state (capped set).",
+    "C07": "every length 0..264 and 1000, 4096, 4097, 65537 with uniform / boundary / mixed / constructed contents; inputs live in exact-size buffers flush against a "
+           "PROT_NONE page (after or before the buffer; malloc under ASan), the digest in a 4 (8) element window framed by sentinels; linear_hash_seq, linear_hash and "
+           "linear_hash_avx512 (two consecutive inputs) compared with a reference sponge on the reference permutation. distinct = (length, content) pairs.",
+    "C08": "shapes rows in {1,2,..,256 (+1024,4096 thorough)} x cols in {0..20,63,64,65,128,129} x dim in {1,2,3} x batch in {1,2,3,7,8,cols-1,cols,cols+1,1000} x "
+           "threads in {0,1,2,3,8,17} for all eight builders (seq/avx/avx512/default wrapper, plain and batched); tree buffer of exactly getTreeNumElements(rows) "
+           "elements and exact-size input in guard-page buffers (malloc under ASan); every element of the buffer compared with a reference tree, root = last four, "
+           "helper = 4(2*rows-1). Smallest shapes (rows<=2 or cols<=1) are never thinned out. distinct = configuration tuples.",
+}
+POS_REQUIRED = {
+    "C06": ["family:uniform", "family:all_boundary", "family:single_hot_boundary", "family:mixed_g64", "family:inverse_constructed_round0",
+            "family:inverse_constructed_round1", "family:inverse_constructed_round2", "in:noncanonical_state_element", "backend:avx512_pairs",
+            "oracle:known_answers_checked", "tables:pinned_hash_checked"],
+    "C07": ["len:zero", "len:passthrough(<=4)", "len:threshold_4_5", "len:single_block", "len:multiple_of_8", "len:ragged_last_block", "len:long",
+            "arena:guard_page_after_input", "arena:guard_page_before_input", "backend:avx512", "oracle:known_answers_checked", "tables:pinned_hash_checked"] +
+           ["len:residue_mod8_%d" % i for i in range(8)],
+    "C08": ["builder:" + b for b in ("merkletree_seq", "merkletree_avx", "merkletree_avx512", "merkletree", "merkletree_batch_seq", "merkletree_batch_avx",
+                                     "merkletree_batch_avx512", "merkletree_batch")] +
+           ["shape:one_row", "shape:zero_columns", "shape:row_passthrough(<=4 elements)", "shape:dim>1", "batch:even", "batch:ragged_last",
+            "batch:larger_than_cols", "threads:default(0)", "threads:more_than_rows", "oracle:known_answers_checked", "tables:pinned_hash_checked"],
+}
+
+
+@reg("C06", "C07", "C08")
+def check_poseidon(prop, tier, seed, work, t0):
+    if not vfw.have_avx512():
+        raise vfw.Inconclusive("this CPU has no AVX-512F; the AVX-512 backends of %s cannot be executed" % prop)
+    bins = vfw.build_many(work, [{"name": "pos-" + fl, "flavour": fl, "srcs": [H("poseidon.cpp")], "libsrcs": POS_LIBS}
+                                 for fl in ("prod", "prod512", "asan", "asan512")])
+    th = tier == "thorough"
+    to = 10800 if th else 1500
+    res = vfw.Results()
+    if prop == "C06":
+        a = {"prod": ["--states", scaled(tier, 800000, 60000000)], "prod512": ["--states", scaled(tier, 800000, 60000000)],
+             "asan": ["--states", scaled(tier, 40000, 1000000)], "asan512": ["--states", scaled(tier, 40000, 1000000)]}
+    elif prop == "C07":
+        a = {"prod": ["--contents", scaled(tier, 48, 2400)], "prod512": ["--contents", scaled(tier, 48, 2400)],
+             "asan": ["--contents", scaled(tier, 8, 100)], "asan512": ["--contents", scaled(tier, 8, 100)]}
+    else:
+        a = {"prod": ["--thin", scaled(tier, 6, 2)], "prod512": ["--thin", scaled(tier, 4, 1)],
+             "asan": ["--thin", scaled(tier, 6, 2), "--slice", scaled(tier, 3, 2)], "asan512": ["--thin", scaled(tier, 4, 1), "--slice", scaled(tier, 3, 2)]}
+    for i, fl in enumerate(("prod512", "prod", "asan512", "asan")):
+        res.merge(vfw.run_shards(work, bins["pos-" + fl], prop, tier, seed + 1000 * i, NCPU, a[fl], tag=fl, timeout=to))
+    return vfw.finalize(prop, tier, seed, res, t0, POS_RULE[prop], assumptions=ASSUME_COMMON + [
+        "the specification is the optimised-form Poseidon of the reference implementation with the library's own tables C, S, M, P (pinned by hash, and the oracle reproduces the two published known answers)"],
+        required=POS_REQUIRED[prop], replay_info={"harness": "poseidon.cpp", "how": "./check %s --replay <file>" % prop})
+
+
 def replay(prop, path, work, seed):
     """Re-run the recorded violation: rebuild and run the same harness on the recorded case only."""
     rp = json.load(open(path))
